@@ -161,7 +161,45 @@ def main(argv):
         logdir = os.path.join(workdir, "logs")
         os.makedirs(logdir, exist_ok=True)
 
+        smt_replayer = [None]
+        if any(h.get("engine") == "smt" and h.get("needs_replayer") for h in harnesses):
+            smt_replayer[0], err = build_replayer(ov, workdir)
+            if smt_replayer[0] is None:
+                log("replayer build failed:\n" + err[-2000:])
+
+        def run_smt(h):
+            """solver check written against the source text (smt/<script>): same result shape as a Kani run"""
+            tmo = h["timeout"][0 if args.tier == "quick" else 1]
+            out = os.path.join(logdir, h["name"] + ".json")
+            logp = os.path.join(logdir, h["name"] + ".log")
+            cmd = ["python3-vt", os.path.join(VERIF, "smt", h["script"]), "--repo", ov, "--instance", h["name"],
+                   "--out", out, "--timeout", str(tmo)]
+            if smt_replayer[0]:
+                cmd += ["--replayer", smt_replayer[0]]
+            t1 = time.time()
+            if os.path.exists(out):
+                os.unlink(out)
+            with open(logp, "w") as lf:
+                lf.write("$ " + " ".join(cmd) + "\n")
+                lf.flush()
+                try:
+                    subprocess.run(cmd, stdout=lf, stderr=subprocess.STDOUT, timeout=tmo + 120)
+                except subprocess.TimeoutExpired:
+                    pass
+            r = {"verdict": "inconclusive", "reason": "no result from %s" % h["script"], "checks_total": 0,
+                 "checks_failed": [], "oracle_ok": [], "covers": [], "covers_unsat": [], "verification_time_s": None,
+                 "playback": []}
+            try:
+                with open(out) as fh:
+                    r.update(json.load(fh))
+            except (OSError, ValueError):
+                pass
+            r.update({"harness": h["name"], "wall_s": round(time.time() - t1, 1), "log": logp, "cmd": " ".join(cmd)})
+            return r
+
         def run(h):
+            if h.get("engine") == "smt":
+                return run_smt(h)
             tgt = os.path.join(scratch, "kani-tgt", h["name"])
             with Lock(tgt + ".lock"):
                 extra = list(h.get("kani_args", []))
@@ -188,11 +226,13 @@ def main(argv):
         results.sort(key=lambda r: r["harness"])
         # second run of each failing harness, one at a time (the trace output is large): ask CBMC
         # for the concrete assignment
-        replayer = None
+        replayer = smt_replayer[0]
         for r in results:
             if r["verdict"] != "violation":
                 continue
             h = r["spec"]
+            if h.get("engine") == "smt":
+                continue  # the solver's model is the witness
             if h.get("witness") == "search":
                 # small scenario space: find the natively reproducing assignment by exhaustive native
                 # search instead of CBMC trace generation (15-20 min on these formulas)
@@ -322,7 +362,7 @@ def write_evidence(pid, tier, seed, spec, results, info, wall, violations, known
             "oracle_assertions_discharged": sorted(set(r["oracle_ok"])),
             "failed": r.get("failed_labels", []),
             "covers": r["covers"],
-            "cbmc_checks": r["checks_total"],
+            ("solver_queries" if h.get("engine") == "smt" else "cbmc_checks"): r["checks_total"],
             "verification_time_s": r["verification_time_s"],
             "wall_s": r["wall_s"],
             "replay": {k: v for k, v in (r.get("replay") or {}).items() if k in ("reproduced", "role", "scenario", "detail", "vals")},
@@ -344,7 +384,7 @@ def write_evidence(pid, tier, seed, spec, results, info, wall, violations, known
         "coverage": {
             "evaluations": evaluations,
             "distinct_nontrivial": len(labels),
-            "rule": ("bounded model checking (Kani 0.68 / CBMC 6.11 / CaDiCaL) of the real functions listed under "
+            "rule": spec.get("rule") or ("bounded model checking (Kani 0.68 / CBMC 6.11 / CaDiCaL) of the real functions listed under "
                      "functions_encoded, compiled from a fresh copy of /repo's working tree. evaluations = number of "
                      "CBMC properties (harness oracle assertions, Rust panics/overflow/bounds checks, unwinding "
                      "assertions) decided by the solver over all values of the symbolic inputs within the bounds; "
@@ -361,7 +401,7 @@ def write_evidence(pid, tier, seed, spec, results, info, wall, violations, known
             "known_findings_hit": [k for _, _, k in known_hits],
             "inconclusive": [{"harness": r["harness"], "reason": r["reason"]} for r in inconclusive],
         },
-        "assumptions": spec.get("assumptions", []) + registry.COMMON_ASSUMPTIONS,
+        "assumptions": spec.get("assumptions", []) + ([] if spec.get("no_common_assumptions") else registry.COMMON_ASSUMPTIONS),
         "wall_s": round(wall, 1),
         "violations": len(violations),
     }
